@@ -39,6 +39,29 @@ func (fr *Frame) execCall(v ssa.Value, c *ssa.CallCommon, in ssa.Instruction) {
 				return
 			}
 		}
+		// a method of a module interface declared `abstract` in the contracts: an uninterpreted
+		// function of the receiver (the implementation behind the interface is deterministic)
+		if nt, ok := c.Value.Type().(*types.Named); ok && nt.Obj().Pkg() != nil {
+			key := "(" + nt.Obj().Pkg().Path() + "." + nt.Obj().Name() + ")." + c.Method.Name()
+			if con := ex.P.Store.Funcs[key]; con != nil && con.Abstract {
+				if rt, ok := fr.term(recv); ok {
+					ts := []*Term{rt}
+					okAll := true
+					for _, a := range args {
+						t, ok := fr.term(a)
+						if !ok {
+							okAll = false
+						}
+						ts = append(ts, t)
+					}
+					if okAll {
+						ex.Used[key] = true
+						fr.setRes(v, ex.abstractApp(key, ts))
+						return
+					}
+				}
+			}
+		}
 		fr.externalResult(v, c, in, "interface method "+c.Method.FullName())
 		return
 	}
@@ -98,6 +121,7 @@ func (fr *Frame) freshResults(res *types.Tuple, prefix string) Val {
 
 func (fr *Frame) callFunc(v ssa.Value, f *ssa.Function, args []Val, bind []Val, in ssa.Instruction) {
 	ex := fr.ex
+	fr.callAsserts(args, in)
 	key := f.String()
 	if f.Origin() != nil {
 		// generic instance: contracts are keyed by the origin
@@ -155,7 +179,7 @@ func (fr *Frame) callFunc(v ssa.Value, f *ssa.Function, args []Val, bind []Val, 
 			// instantiated generic of the module: fall through to inlining
 		} else if f.Pkg == nil && f.Blocks != nil && f.Parent() != nil && f.Parent().Pkg != nil && strings.HasPrefix(f.Parent().Pkg.Pkg.Path(), modPath) {
 			// closure of a module function
-		} else if f.Pkg == nil && f.Blocks != nil && strings.HasPrefix(f.Synthetic, "wrapper for") && strings.Contains(f.String(), modPath) {
+		} else if f.Pkg == nil && f.Blocks != nil && (strings.HasPrefix(f.Synthetic, "wrapper for") || strings.HasPrefix(f.Synthetic, "bound method wrapper for")) && strings.Contains(f.String(), modPath) {
 			// pointer-receiver wrapper of a value method of the module: its body calls the method
 		} else {
 			fr.externalResult(v, callCommon(in), in, "call to external function without contract: "+shortName(f.String()))
@@ -758,4 +782,29 @@ func (fr *Frame) invokeUnion(tv TV, c *ssa.CallCommon, args []Val, in ssa.Instru
 	fr.mem = mergeMem(gs, ms).clone()
 	fr.cur = Or(gs...)
 	return true
+}
+
+// callAsserts: `at <site> assert e` clauses of the function under verification; $arg0.. are the
+// actual arguments of the call at that site.
+func (fr *Frame) callAsserts(args []Val, in ssa.Instruction) {
+	if fr.con == nil || len(fr.con.CallAsserts) == 0 || in == nil {
+		return
+	}
+	site := fr.site(in)
+	site = strings.TrimPrefix(site, fr.prefix)
+	for _, cl := range fr.con.CallAsserts[site] {
+		env := fr.bodyEnv(fr.curBlock, fr.mem)
+		if env == nil {
+			continue
+		}
+		for i, a := range args {
+			env.vars[fmt.Sprintf("$arg%d", i)] = a
+		}
+		t, err := env.EvalBool(cl.Expr)
+		if err != nil {
+			fr.ex.oos("%s: at %s: %v", shortName(fr.fn.String()), site, err)
+			continue
+		}
+		fr.ex.oblige("at:"+site+"/assert:"+strings.ReplaceAll(cl.Src[strings.Index(cl.Src, " assert ")+8:], " ", ""), "assert", fr.pos(in), fr.cur, t)
+	}
 }
